@@ -30,6 +30,10 @@ UNITS = [
     flow.Unit('sedov', groups=['sedov'], props=['props/C17_sedov.v'], custom_corr=__import__('sedov_corr').unit_corr, oracle=oracle_of('sedov'),
               note='Sedov blast front: post-shock density = (gamma+1)/(gamma-1) x ambient profile at the coded shock radius (compressive for every omega, t), '
                    'front and gas move outward, post-shock pressure positive (theorem on the regenerated constructor constants of _run)'),
+    flow.Unit('ep-piston', groups=['piston'], props=['props/C17_piston.v'], custom_corr=__import__('piston_corr').unit_corr, oracle=oracle_of('piston'),
+              note='elastic-plastic piston: the plastic wave compresses (rho2 > rho_y) for every piston speed between the precursor particle velocity and the plastic '
+                   'wave speed, a compressive precursor moves the material forward (theorem on the regenerated constructor algebra; yield density and plastic wave '
+                   'speed are free variables)'),
     flow.Unit('real-code', groups=[], props=[], oracle=oracle_of('noh', 'sedov', 'guderley', 'riemann', 'ehep', 'mader', 'sdrz', 'piston', 'suolson'),
               always_oracle=True,
               note='signs, compressive shocks, monotone fans and between-ness along fine point sequences on the REAL solvers: Noh, Sedov (standard, singular, '
